@@ -23,11 +23,11 @@ type H2Script struct {
 }
 
 type H2GenOpts struct {
-	ClientID   int
-	MaxReqs    int
-	Bodies     bool
-	ExtraMax   int  // extra fingerprint-relevant frames before each request
-	TailFrames bool // more frames after the last request
+	ClientID         int
+	MaxReqs          int
+	Bodies           bool
+	ExtraMax         int  // extra fingerprint-relevant frames before each request
+	TailFrames       bool // more frames after the last request
 	OneGroupPerFrame bool
 }
 
